@@ -76,3 +76,21 @@ w("C02", {
  "outside": ["inputs longer than the stated lengths", "allocation threshold is deliberately loose: 16*len+2MiB (flags 32-bit-count driven allocations only)"],
  "assumptions": ["Dir.Size and Fcall.Size (derived length fields) are not compared across the re-encode round trip"],
 })
+
+# ---------------- C20 ----------------
+def c20(rings, multis):
+    F = ["api", "c20"]
+    runs = []
+    for (N, ops, P) in rings:
+        runs.append({"harness": "vxH20Ring", "args": [str(N), str(ops)], "files": F, "preempt": P, "race": True, "reach": ["final", "filter-mid"], "timeout_s": 1500,
+                     "bounds": f"capacity {N}, every sequence of {ops} Log/Filter calls (owner A/B/nil chosen, type symbolic) + final Filter; all schedules of caller vs logger goroutine with <= {P} preemptions; select choices exhaustive"})
+    for (N, per, P) in multis:
+        runs.append({"harness": "vxH20Multi", "args": [str(N), str(per)], "files": F, "preempt": P, "race": True, "reach": ["final"], "timeout_s": 1500,
+                     "bounds": f"capacity {N}, two producers x {per} Logs, one concurrent Filter, <= {P} preemptions"})
+    return runs
+w("C20", {
+ "quick": c20([(1, 3, 1), (2, 3, 1)], [(2, 2, 1)]),
+ "thorough": c20([(1, 4, 2), (2, 4, 1), (3, 4, 1), (2, 5, 0)], [(2, 2, 2), (3, 2, 1)]),
+ "outside": ["capacities > 3, more than 5 calls, more than 2 preemptions", "Resize"],
+ "assumptions": ["goroutine schedules are explored at synchronisation granularity (channel operations); happens-before race detection runs on every explored schedule"],
+})
